@@ -358,6 +358,29 @@ def run(tier, rep):
                 rep.sample({"graph": graph, "history": [{k: s[k] for k in ("a", "p", "arg", "expect")} for s in h]})
             for ident, detail in issues:
                 rep.violation(ident, detail, replay={"graph": graph, "history": h})
+    # ---- 2b. the stale-subset sweep (MCArtifacts.tla, SweepSpec): exhaustively, one interface edited and every subset of the
+    # packages rebuilt before everything is linked; all behaviours replayed
+    sweep_replayed = 0
+    for graph in ("tri", "diamond") if tier == "quick" else ("chain", "tri", "fan", "diamond"):
+        r = run_tlc("MCArtifacts", f"Artifacts_sweep_{graph}.cfg", workers=1, timeout=900, xmx="4g", env={"KOFF": seed()}, name=f"artifacts-sweep-{graph}")
+        if r.rc != 0 and r.violated:
+            rep.violation(f"model:sweep:{graph}:{r.violated}", {"trace": r.trace[-4:]})
+            continue
+        if r.rc != 0:
+            raise ToolError("sweep enumeration failed: " + (r.error or r.stdout[-2000:]))
+        hists = r.json_prints("HIST")
+        n = len(GRAPHS[graph])
+        if len(hists) != n * 2 ** n:
+            raise ToolError(f"sweep of {graph}: {len(hists)} behaviours, expected {n * 2 ** n}")
+        for h in hists:
+            issues, st = replay(h, graph, os.path.join(WORK, "c15", f"sweep-{graph}"), rnd)
+            sweep_replayed += 1
+            for k in agg:
+                agg[k] += st[k]
+            for ident, detail in issues:
+                rep.violation("stale-subset:" + ident, detail, replay={"graph": graph, "history": h})
+    replayed += sweep_replayed
+    rep.coverage["stale_subset_sweep_histories"] = sweep_replayed
     # ---- 3. corruption sweep
     sw = sweep_corruptions(rep, os.path.join(WORK, "c15", "sweep"), 60 if tier == "quick" else 0, rnd)
     rep.coverage.update({
